@@ -140,6 +140,10 @@ def generate(prop: str) -> dict:
     for k in kernels:
         imports.update(k.imports)
         try:
+            if os.environ.get("VERIF_FORCE_SKIP") == "1":
+                # self-test of the bridge scripts: every kernel falls back to the hand-written model; the bridge lemmas
+                # must still build (a `skipped` kernel may never break an obligation)
+                raise Untranslatable("forced by VERIF_FORCE_SKIP")
             if k.file not in trees:
                 trees[k.file] = parse_file(REPO / k.file)
             fn = find_function(trees[k.file], k.func)
